@@ -4,7 +4,8 @@ Property C08 — Replication: a follower's log is a gap-free, byte-identical cop
 All theorems quantify over EVERY event sequence `evs : List Ev` of the model
 (`LinVerif.Replication.run cfg evs`): a leader with TWO followers; leader appends interleaved with
 replica steps of either follower carrying any connection fault (client creation, get-ack rpc, reset
-rpc, stream creation, request lost, response lost), follower restarts, a follower that lost its log,
+rpc, stream creation, request lost, response lost) or a storage fault on the follower (its Put fails),
+adding a follower to the partition at any time, follower restarts, a follower that lost its log,
 snapshots of the leader's partition directory and restores of ANY saved image (= the leader loses its
 log tail; older after newer included), leader restarts, follower offline/online notifications, leader
 log Sync/GC, the expiry check that stops drained groups and destroys a drained partition;
@@ -88,10 +89,20 @@ theorem agreement_leader_loss_partial (cfg : Cfg) (evs : List Ev) (hs : Synced (
 
 /-- Whenever an event of follower A moves A's group ack, the new ack is a position the follower has
 appended (covers `SetAckIndex` in Replica, in the handshake and in IgnoreMessage). -/
-theorem ack_sound (cfg : Cfg) (evs : List Ev) (e : Ev) (he : e.who = some .a) (hg : (run cfg evs).gone = false) :
+theorem ack_sound (cfg : Cfg) (evs : List Ev) (e : Ev) (he : e.who = some .a) (hg : (run cfg evs).gone = false)
+    (hst : (run cfg evs).stopped = false) :
     (next cfg (run cfg evs) e).1.gack ≠ (run cfg evs).gack →
     (next cfg (run cfg evs) e).1.gack ≤ (next cfg (run cfg evs) e).1.F.app :=
-  ((next_spec cfg _ e (full_run cfg evs)).pa he hg).ackok
+  ((next_spec cfg _ e (full_run cfg evs)).pa he hg).ackok hst
+
+/-- Adding a follower (or re-adding one whose group IsExpire had stopped) never makes the leader treat
+a position it still holds as acknowledged: the group's ack stays, or it is at most the queue's own
+acknowledged sequence. A follower that was never there starts exactly at the queue's ack. -/
+theorem join_sound (cfg : Cfg) (evs : List Ev) (e : Ev) (he : e.who = some .a) (hg : (run cfg evs).gone = false)
+    (hst : (run cfg evs).stopped = true) :
+    (next cfg (run cfg evs) e).1.gack = (run cfg evs).gack ∨
+    (next cfg (run cfg evs) e).1.gack ≤ (next cfg (run cfg evs) e).1.L.ack :=
+  ((next_spec cfg _ e (full_run cfg evs)).pa he hg).joinok hst
 
 /-- Leader-wide events other than restarts (append, snapshot, Sync/GC, expiry) never move a group's ack
 nor touch a follower's log. -/
@@ -111,7 +122,7 @@ theorem ack_sound_other_partial (cfg : Cfg) (evs : List Ev) (h : NoLoss evs) (e 
 /-- Histories without leader tail loss: every position an event of A newly acknowledges is held by
 the follower at that moment. -/
 theorem ack_covers (cfg : Cfg) (evs : List Ev) (h : NoLoss evs) (e : Ev) (he : e.who = some .a)
-    (hg : (run cfg evs).gone = false) (i : Int) :
+    (hg : (run cfg evs).gone = false) (hst : (run cfg evs).stopped = false) (i : Int) :
     (run cfg evs).gack < i → i ≤ (next cfg (run cfg evs) e).1.gack →
     ∃ m, (next cfg (run cfg evs) e).1.F.get i = some m := by
   intro h1 h2
@@ -121,7 +132,7 @@ theorem ack_covers (cfg : Cfg) (evs : List Ev) (h : NoLoss evs) (e : Ev) (he : e
   have hge := (full_run cfg evs).a.lint.gack_ge
   apply hn.full.a.fint.holes i
   · rcases hp.fack with x | x | x <;> omega
-  · exact hp.cover i h1 h2
+  · exact hp.cover hst i h1 h2
 
 /-- A synced, undisturbed channel never treats a position as acknowledged that the follower has not appended. -/
 theorem ack_sound_synced (cfg : Cfg) (evs : List Ev) (hs : Synced (run cfg evs)) (hd : (run cfg evs).dz = false) :
@@ -131,20 +142,26 @@ theorem ack_sound_synced (cfg : Cfg) (evs : List Ev) (hs : Synced (run cfg evs))
   have := hb.a.lint.gack_cons
   omega
 
-/-- Histories without leader tail loss: the same without the ghost hypothesis. -/
-theorem ack_sound_synced_noloss (cfg : Cfg) (evs : List Ev) (h : NoLoss evs) (hs : Synced (run cfg evs)) :
+/-- Histories without leader tail loss and without follower Put faults: the same without the ghost hypothesis. -/
+theorem ack_sound_synced_noloss (cfg : Cfg) (evs : List Ev) (h : NoLoss evs) (hp : NoPutFault evs) (hs : Synced (run cfg evs)) :
     (run cfg evs).gack ≤ (run cfg evs).F.app :=
-  ack_sound_synced cfg evs hs (nlf_run cfg evs h).dza
+  ack_sound_synced cfg evs hs (dzf_run cfg evs h hp).dza
 
 /-- A leader restart never moves the ack of a registered group (the re-open lift is a no-op). -/
 theorem restart_keeps_ack (cfg : Cfg) (evs : List Ev) (hst : (run cfg evs).stopped = false)
     (hg : (run cfg evs).gone = false) :
     (next cfg (run cfg evs) .lrestart).1.gack = (run cfg evs).gack := by
   have ha := (full_run cfg evs).a.ackg hst
+  have hbn : (run cfg evs).born = true := by
+    cases hb : (run cfg evs).born with
+    | true => rfl
+    | false => have := ((full_run cfg evs).ubA hb).1; rw [hst] at this; cases this
   have e : (next cfg (run cfg evs) .lrestart).1 = reopenLeader (run cfg evs) (run cfg evs).image := by
     simp [next, hg, Ev.who]
   rw [e]
-  show liftAck (run cfg evs).gack (run cfg evs).L.ack = _
+  show (if (run cfg evs).born then liftAck (run cfg evs).gack (run cfg evs).L.ack else -1) = _
+  rw [hbn]
+  simp only [if_true]
   unfold liftAck
   split <;> omega
 
@@ -195,23 +212,26 @@ theorem resync_sends_next (cfg : Cfg) (evs : List Ev) (hs : Synced (run cfg evs)
 
 /-- No event of any history ever ends in IgnoreMessage; and no event of follower A ends in the
 "answer ≠ sent index" branch of Replica ("TODO: need reset ack sequence?") unless the other
-follower's handshake has moved A's group while A's channel was ready (ghost `dz`).
-Full-strength (no `dz`): false with two followers and leader tail loss, `Neg.mismatch_reachable`. -/
+follower's handshake has moved A's group while A's channel was ready, or a Put on the follower failed
+earlier and no handshake has happened since (ghost `dz`), or this very event carries a follower Put fault.
+Full-strength (no `dz`): false — two followers + leader tail loss, `Neg.mismatch_reachable`; a follower Put
+fault, `Neg.put_fault_wedges_channel`. -/
 theorem resync_unreachable_mismatch_partial (cfg : Cfg) (evs : List Ev) (e : Ev) :
     (next cfg (run cfg evs) e).2 ≠ .ignored ∧
-    (e.who = some .a → (run cfg evs).dz = false → (next cfg (run cfg evs) e).2 ≠ .mismatch) := by
+    (e.who = some .a → (run cfg evs).dz = false → e.putFault = false → (next cfg (run cfg evs) e).2 ≠ .mismatch) := by
   have hn := next_spec cfg _ e (full_run cfg evs)
-  refine ⟨hn.ignored, fun he hd => ?_⟩
+  refine ⟨hn.ignored, fun he hd hp => ?_⟩
   by_cases hg : (run cfg evs).gone = false
-  · exact (hn.pa he hg).label.2 hd
+  · exact (hn.pa he hg).label.2 hd hp
   · have := hn.goneKeep (by simpa using hg)
     rw [this.2]; simp
 
-/-- Histories without leader tail loss: both branches are unreachable, for either follower. -/
-theorem resync_unreachable_mismatch (cfg : Cfg) (evs : List Ev) (h : NoLoss evs) (e : Ev) :
+/-- Histories without leader tail loss and without follower Put faults: both branches are unreachable, for either follower. -/
+theorem resync_unreachable_mismatch (cfg : Cfg) (evs : List Ev) (h : NoLoss evs) (hpf : NoPutFault evs) (e : Ev)
+    (hpe : e.putFault = false) :
     (next cfg (run cfg evs) e).2 ≠ .ignored ∧ (next cfg (run cfg evs) e).2 ≠ .mismatch := by
   have hn := next_spec cfg _ e (full_run cfg evs)
-  have hnl := nlf_run cfg evs h
+  have hnl := dzf_run cfg evs h hpf
   refine ⟨hn.ignored, ?_⟩
   by_cases hg : (run cfg evs).gone = false
   · cases hw : e.who with
@@ -223,8 +243,8 @@ theorem resync_unreachable_mismatch (cfg : Cfg) (evs : List Ev) (h : NoLoss evs)
         rcases this with x | x <;> rw [x] <;> simp
     | some w =>
       cases w with
-      | a => exact (hn.pa hw hg).label.2 hnl.dza
-      | b => exact (hn.pb hw hg).label.2 hnl.dzb
+      | a => exact (hn.pa hw hg).label.2 hnl.dza hpe
+      | b => exact (hn.pb hw hg).label.2 hnl.dzb hpe
   · have := hn.goneKeep (by simpa using hg)
     rw [this.2]; simp
 
@@ -328,13 +348,24 @@ theorem resync_catch_up (cfg : Cfg) (evs : List Ev) (k : Nat) (hsy : Synced (run
 namespace Tie
 open LinVerif.Generated
 
-/-- partition.ReplicaLog: `appendIdx := AppendedSeq()+1; if replicaIdx != appendIdx { return appendIdx }` -/
-theorem replicaLog_eq (F : Log) (idx : Int) (m : Msg) :
-    replicaLog F idx m =
+/-- partition.ReplicaLog: `appendIdx := AppendedSeq()+1; if replicaIdx != appendIdx { return appendIdx, nil }`,
+a failed Put reports the regenerated index (-1 on the current tree), a successful one `appendIdx` -/
+theorem replicaLog_eq (F : Log) (idx : Int) (m : Msg) (pf : Bool) :
+    replicaLog F idx m pf =
       (if C08.replicaLogSkipCond idx (C08.followerAppendIdx F.app) = true then (F, C08.followerAppendIdx F.app)
+       else if pf = true then (F, C08.replicaLogPutFailAck (C08.followerAppendIdx F.app))
        else (F.put m, C08.followerAppendIdx F.app)) := by
-  unfold replicaLog C08.replicaLogSkipCond C08.followerAppendIdx
+  unfold replicaLog C08.replicaLogSkipCond C08.followerAppendIdx C08.replicaLogPutFailAck
   by_cases h : idx = F.app + 1 <;> simp [h]
+
+theorem replicaLog_returns : C08.replicaLogReturns =
+    ["0, constants.ErrPartitionClosed", "appendIdx, nil", "-1, err", "appendIdx, nil"] := rfl
+
+/-- partition.buildReplica (the `join` event): GetOrCreateConsumerGroup, then a replicator -/
+theorem buildReplica_calls : C08.buildReplicaCalls =
+    ["fmt.Sprintf", "log.GetOrCreateConsumerGroup", "shard.Database", "shard.Database().Name", "family.TimeRange",
+     "newLocalReplicatorFn", "newRemoteReplicatorFn", "replicator.ReplicaState", "make", "make",
+     "metrics.NewStorageReplicatorRunnerStatistics"] := rfl
 
 theorem replicaLog_calls : C08.replicaLogCalls =
     ["closed.Load", "log.Queue", "log.Queue().AppendedSeq", "log.Queue", "log.Queue().Put"] := rfl
@@ -530,7 +561,7 @@ end Tie
 /-- a history with a lost request and a follower restart that ends synced with follower A
 holding two positions, while follower B got everything -/
 def sample : List Ev :=
-  [.append [1], .append [2], .step .a .send, .step .a .none, .frestart .a, .append [3], .step .a .none, .step .a .none,
+  [.join .b, .append [1], .append [2], .step .a .send, .step .a .none, .frestart .a, .append [3], .step .a .none, .step .a .none,
    .step .a .none, .step .b .none, .step .b .none, .step .b .none]
 
 example : NoLoss sample := by
@@ -556,9 +587,14 @@ example : (run { fixed := true } [.append [1], .step .a .send]).chan ≠ .ready 
 example : (run { fixed := true } [.offline .a, .step .a .none]).chan ≠ .ready ∧
     (run { fixed := true } [.offline .a, .step .a .none]).susp = true := by decide
 /-- `expire_safe` is about a reachable situation: the expiry check stops a drained group, keeps an undrained one -/
-example : (run { fixed := true } [.append [1], .step .a .none, .expire]).stopped = true ∧
-    (run { fixed := true } [.append [1], .step .a .none, .expire]).stopped2 = false ∧
-    (run { fixed := true } [.append [1], .step .a .none, .expire]).gone = false := by decide
+example : (run { fixed := true } [.join .b, .append [1], .step .a .none, .expire]).stopped = true ∧
+    (run { fixed := true } [.join .b, .append [1], .step .a .none, .expire]).stopped2 = false ∧
+    (run { fixed := true } [.join .b, .append [1], .step .a .none, .expire]).gone = false := by decide
+/-- `join_sound`: a follower added to a partition whose log holds un-released messages starts at the
+queue's ack and is sent the whole backlog -/
+example : (run { fixed := true } [.append [1], .append [2], .step .a .none, .join .b]).gack2 = -1 ∧
+    (run { fixed := true } [.append [1], .append [2], .step .a .none, .join .b, .step .b .none, .step .b .none]).F2.app = 1 := by
+  decide
 /-- restoring an OLDER image after a newer one is expressible -/
 example : (run { fixed := true } [.append [1], .lsnap, .append [2], .lsnap, .append [3], .lrestore 0, .lrestore 1]).L.app = 0 := by
   decide
@@ -623,7 +659,7 @@ Now the leader treats 4..6 as acknowledged by B, which holds only 0..3, B's chan
 every later message is offered at an index B refuses (the "TODO: need reset" branch), nothing is
 acknowledged and nothing ever triggers a new handshake: B never receives b7, b8. -/
 def witnessE : List Ev :=
-  [.append [0xa0], .append [0xa1], .append [0xa2], .append [0xa3], .step .a .none, .step .a .none, .step .a .none, .step .a .none,
+  [.join .b, .append [0xa0], .append [0xa1], .append [0xa2], .append [0xa3], .step .a .none, .step .a .none, .step .a .none, .step .a .none,
    .step .b .none, .step .b .none, .step .b .none, .step .b .none, .lsnap,
    .append [0xa4], .append [0xa5], .append [0xa6], .step .a .none, .step .a .none, .step .a .none, .lrestore 0,
    .step .b .none, .step .a .none, .append [0xb7], .step .b .none, .append [0xb8], .step .b .none, .step .a .none, .step .a .none]
@@ -651,6 +687,28 @@ theorem ack_sound_synced_full_fails (cfg : Cfg) :
   have := h witnessE w.1 w.2.1
   rw [w.2.2.2.1, w.2.2.2.2.1] at this
   omega
+
+/-- (4) A storage fault on the follower: its `Put` fails once while the connection is healthy. The
+handler answers `AckIndex = -1` with `Err` set; the leader ignores `resp.Err`, sees -1 ≠ sent index
+and takes the "TODO: need reset" branch: nothing is acknowledged (sound), but the channel stays `ready`
+with the replica index one past the follower's next index, so every later message is refused and the
+channel does not resynchronise until something breaks the stream. -/
+def witnessP : List Ev :=
+  [.append [0xa0], .step .a .none, .append [0xa1], .step .a .put, .append [0xa2], .step .a .none, .append [0xa3], .step .a .none]
+
+theorem put_fault_wedges_channel (cfg : Cfg) :
+    Synced (run cfg witnessP) ∧ (run cfg witnessP).gack = 0 ∧ (run cfg witnessP).F.app = 0 ∧
+    (run cfg witnessP).cons = 3 ∧ (run cfg witnessP).L.app = 3 ∧
+    (next cfg (run cfg (witnessP ++ [.append [0xa4]])) (.step .a .none)).2 = .mismatch := by
+  cases cfg with
+  | mk fixed => cases fixed <;> decide
+
+/-- ... and the first stream fault afterwards (noticed with the next message) repairs it -/
+theorem put_fault_recovers_after_stream_fault (cfg : Cfg) :
+    Synced (run cfg (witnessP ++ [.frestart .a, .append [0xa4], .step .a .none, .step .a .none, .step .a .none, .step .a .none, .step .a .none])) ∧
+    (run cfg (witnessP ++ [.frestart .a, .append [0xa4], .step .a .none, .step .a .none, .step .a .none, .step .a .none, .step .a .none])).F.app = 4 := by
+  cases cfg with
+  | mk fixed => cases fixed <;> decide
 
 end Neg
 
